@@ -103,6 +103,8 @@ def main(argv):
     else:
         n = 40 if ck.tier == "quick" else 1500
         hs = corpus() + [gen_history(ck.rng, ck.tier) for _ in range(n)]
-    ck.correspond(hb, db, hs, label="okl-rules", timeout=900,
+    # occa's parsers leak by design ("TODO: Figure out which variables are being deleted"); leaks are not C22's business
+    env = {"ASAN_OPTIONS": "detect_leaks=0:abort_on_error=0:exitcode=66:allocator_may_return_null=1"}
+    ck.correspond(hb, db, hs, label="okl-rules", timeout=900, env=env,
                   nontrivial=lambda h, impl: any(o.startswith("v=") for o in impl))
     ck.finish(META["level_text"])
